@@ -38,9 +38,11 @@ func init() {
 		Rule: "case kinds: (example) the repository's 2 MiB example image; (shapes) a generated model-valid TDVF image measured for each of the six GCE shapes through LaunchOptionsDefaultTDHOBBug in legacy and early-accept mode plus tdx.UnsignedTDX over a random shape list; " +
 			"(layout) generated images 8 KiB..2 MiB with 2..8 metadata sections in any declared order (types BFV/CFV/TD-HOB/TempMem, EXTEND on/off, undefined attribute bits, memory anywhere below 2^40: touching, straddling 3/4 GiB, data ranges partitioned or overlapping/unaligned, descriptor at any offset, extra GUID-table entries) " +
 			"with generated non-overlapping RAM bank lists (touching, nested around sections, zero length, unsorted, unaligned, straddling 4 GiB, above 2^40) in the three launch modes; " +
+			"(retention, inside shapes/layout/example) the regions of the previous 1-3 Extract* calls are kept while later calls for other modes / bank lists / images run, then looked at again; (concurrent) 4-16 goroutines call tdx.MRTD and ovmf.Extract* at the same time for different shapes / bank lists / modes on the same and on different images; " +
 			"(grid) small-scope exhaustive: every placement of <=2 extra sections and <=2 banks (incl. an empty bank) on a 6-point page grid around 4 GiB, both legacy modes. " +
 			"Oracle: for a model-valid image/configuration tdx.MRTD must return the model's SHA-384 record stream digest; regions returned by ovmf.Extract* must be the declared sections in declared order with the image bytes / the model's TD-HOB (decoded by an independent HOB reader: hand-off table, one system-memory descriptor per section, unaccepted = RAM minus sections ascending with the early-accept rule, end marker, zero padding); " +
 			"shape bank lists must equal the model's table; every UnsignedTDX row must equal the model for its shape/mode; the grid's unaccepted descriptors must equal a per-page characteristic-function sweep. " +
+			"a result that equalled the model when it was returned must still do so (TD-HOB bytes, digest of its regions under the model's record stream) after later calls, and every concurrent call must return the model's value. " +
 			"distinct non-trivial cell = (kind, mode, #sections bucket, #unaccepted bucket, layout features) with an MRTD that was computed and compared",
 		Assumptions: []string{
 			"the default launch configuration describes no guest RAM in the TD-HOB (tdx.LaunchOptionsDefault carries no banks and ovmf.ExtractMaterialGuestPhysicalRegions takes none); a bank list passed together with default mode is counted, not judged",
@@ -258,6 +260,9 @@ type runner struct {
 	gridConfigs   int
 	regionsOK     int
 	brk           breaker
+	kept          []*kept
+	retainedOK    int
+	concOK        int
 }
 
 func witness(fw []byte, sp any, banks []tdxref.Range, m tdxref.Mode, more map[string]any) map[string]any {
@@ -406,7 +411,11 @@ func (r *runner) measure(i int, kind, gen string, fw []byte, banks []tdxref.Rang
 		})
 		c.Count("calls/"+entry, 1)
 		if !pm.Panicked {
-			r.checkRegions(i, g, entry, fw, exp, mb, m, regions, rerr)
+			ok := r.checkRegions(i, g, entry, fw, exp, mb, m, regions, rerr)
+			r.recheckKept(i, g) // earlier results must not have changed because of this call
+			if ok {
+				r.keep(i, &kept{entry: entry, gen: g, fw: fw, exp: exp, banks: mb, mode: m, regions: regions})
+			}
 		}
 		// MRTD
 		var got [48]byte
@@ -414,6 +423,7 @@ func (r *runner) measure(i int, kind, gen string, fw []byte, banks []tdxref.Rang
 		opts := optsFor(m, mb)
 		pm = r.guard(i, eMRTD, g, func() { got, gerr = tdx.MRTD(opts, fw) })
 		c.Count("calls/"+eMRTD+"/"+m.String(), 1)
+		r.recheckKept(i, g+" (tdx.MRTD)")
 		if pm.Panicked {
 			continue
 		}
@@ -517,6 +527,7 @@ func (r *runner) caseExample(i int) {
 		feat := map[string]bool{}
 		r.measure(i, "example", gen+"/generated-banks", fw, genBanks(rr, l.Sections, feat), modes[1:], feat, false)
 	}
+	r.flushKept(i)
 	c.End(i)
 }
 
@@ -595,6 +606,9 @@ func (r *runner) caseShapes(i int) {
 	// regions for one shape per case (TD-HOB decoded)
 	sh := tdxref.Shapes[rr.IntN(len(tdxref.Shapes))]
 	r.measure(i, "shapes", gen+"/"+sh.Name+"/regions", fw, sh.Banks, modes, map[string]bool{"shape": true}, i%8 == 1)
+	sh2 := tdxref.Shapes[rr.IntN(len(tdxref.Shapes))] // a later call for another bank list while the results above are retained
+	r.measure(i, "shapes", gen+"/"+sh2.Name+"/regions-2", fw, sh2.Banks, modes[1:2], map[string]bool{"shape": true}, false)
+	r.flushKept(i)
 	// UnsignedTDX rows over a random shape list (subset, any order, repeats allowed)
 	n := 1 + rr.IntN(len(tdxref.Shapes))
 	if rr.IntN(6) == 0 {
@@ -689,6 +703,21 @@ func (r *runner) caseLayout(i int) {
 		return
 	}
 	r.measure(i, "layout", gen, fw, banks, modes, sp.Feat, i%64 == 5)
+	// a later call for another bank list (sometimes another image) while the results above are retained
+	if rr.IntN(4) == 0 {
+		sp2 := genSpec(rr)
+		for sp2.Size > 64<<10 {
+			sp2 = genSpec(rr)
+		}
+		fw2 := buildImage(rr, sp2)
+		if r.selfCheck(i, gen+"/image-2", fw2, sp2) {
+			r.measure(i, "layout", gen+"/image-2", fw2, genBanks(rr, sp2.Sections, sp2.Feat), modes[1:2], sp2.Feat, false)
+		}
+	} else {
+		f2 := map[string]bool{}
+		r.measure(i, "layout", gen+"/banks-2", fw, genBanks(rr, sp.Sections, f2), modes[1+rr.IntN(2):][:1], f2, false)
+	}
+	r.flushKept(i)
 }
 
 // ---- small-scope exhaustive grid ----
@@ -925,21 +954,27 @@ func run(c *core.Ctx) {
 	nLayout := c.N(2400, 28000)
 	secCfgs := gridSectionConfigs()
 	bankCfgs := gridBankConfigs()
-	total := 1 + nShapes + nLayout + len(secCfgs)
+	nConc := c.N(48, 600)
+	total := 1 + nShapes + nLayout + len(secCfgs) + nConc
 	gridRan := false
 	for i := 0; i < total; i++ {
 		if !c.Mine(i) {
 			continue
 		}
+		// order: example, concurrent, shapes, layout, grid (the concurrent family runs early so that its
+		// findings are not cut off by the per-shard cap on logged violations)
+		j := i - 1 - nConc
 		switch {
 		case i == 0:
 			r.caseExample(i)
-		case i < 1+nShapes:
+		case i <= nConc:
+			r.caseConcurrent(i)
+		case j < nShapes:
 			r.caseShapes(i)
-		case i < 1+nShapes+nLayout:
+		case j < nShapes+nLayout:
 			r.caseLayout(i)
 		default:
-			k := i - 1 - nShapes - nLayout
+			k := j - nShapes - nLayout
 			r.caseGrid(i, k, secCfgs[k], bankCfgs)
 			gridRan = true
 		}
@@ -965,6 +1000,9 @@ func run(c *core.Ctx) {
 	c.Floor("unsigned-rows-compared", r.rowsChecked > 0)
 	c.Floor("grid-ran", gridRan && r.gridConfigs > 0)
 	c.Floor("regions-compared-equal", r.regionsOK > 0)
+	c.Count("retention/results-still-equal-at-end-of-window", r.retainedOK)
+	c.Floor("retained-results-rechecked", r.retainedOK > 0)
+	c.Floor("concurrent-calls-compared", r.concOK > 0)
 	for _, sh := range tdxref.Shapes {
 		if r.shapesSeen[sh.Name] {
 			c.Count("shape-equal/"+sh.Name, 1)
